@@ -16,6 +16,8 @@ Event(g) ==
     [] e.pt = "ph.w.start"  -> ph_w_start(w)
     [] e.pt = "ph.w.recv"   -> ph_w_recv(w, e.a)
     [] e.pt = "ph.w.result" -> ph_w_result(w) /\ cur[w] = e.a
+    \* (the hook after the send: the model delivers the result in the same step as the decision, nothing is left to do)
+    [] e.pt = "ph.w.sent"   -> wpc[w] = "idle" /\ cur[w] = e.a /\ UNCHANGED vars
     [] e.pt = "ph.w.fail"   -> ph_w_fail(w) /\ cur[w] = e.a
     [] e.pt = "ph.w.stop"   -> ph_w_stop(w) /\ cur[w] = e.a
     [] e.pt = "ph.w.done"   -> ph_w_done(w)
